@@ -170,6 +170,63 @@ def timingLine (c : TimingCase) : Sx :=
     | none => p
   .list [.atom "tpred", .atom p.result, .atom (toString p.ret), ofBool p.ambiguous]
 
+/-! ### bound mode (C14 at the level of `listen`): long-lived peers against a worker limit -/
+
+structure BoundCase where
+  max : Nat
+  n : Nat
+  hold : Nat
+  stagger : Nat
+
+def parseBoundCase : Sx → Option BoundCase
+  | .list (.atom "listen-bound" :: _ :: _ :: max :: n :: hold :: stagger :: _) => do
+    let max ← asNat max
+    let n ← asNat n
+    let hold ← asNat hold
+    let stagger ← asNat stagger
+    pure { max, n, hold, stagger }
+  | _ => none
+
+/-- when each peer gets its first reply: on arrival while fewer than `max` connections are in service
+    (C14_no_stranding), otherwise when enough of them have ended (C14_bound) -/
+def boundPrediction (c : BoundCase) : List Nat :=
+  let rec go (i : Nat) (fuel : Nat) (ends : List Nat) (acc : List Nat) : List Nat :=
+    match fuel with
+    | 0 => acc.reverse
+    | fuel + 1 =>
+      let a := i * c.stagger
+      let active := (ends.filter (· > a)).mergeSort (· ≤ ·)
+      let first := if active.length < c.max then a else active.getD (active.length - c.max) a
+      go (i + 1) fuel ((first + c.hold) :: ends) (first :: acc)
+  go 0 c.n [] []
+
+def boundLine (c : BoundCase) : Sx :=
+  .list (.atom "bpred" :: (boundPrediction c).map fun t => .atom (toString t))
+
+def boundTolerance : Nat := 300
+
+def boundPred (c : BoundCase) (obs : Sx) : Verdict :=
+  match obs with
+  | .list (.atom "bobs" :: items) =>
+    let conns : List (Option Nat × Nat) := items.filterMap fun k => match k with
+      | .list [.atom "c", f, e] => (asNat e).map fun e => (asNat f, e)
+      | _ => none
+    if conns.length != c.n then some "bound-observation-incomplete"
+    else if conns.any (fun k => k.1.isNone) then some "accepted-connection-never-served"
+    else
+      let served : List (Nat × Nat) := conns.filterMap fun k => k.1.map fun f => (f, k.2)
+      -- the limit: connections whose service interval covers the moment another one got its first reply
+      let over := served.any fun k => (served.filter fun j => j.1 ≤ k.1 && j.2 > k.1 + 40).length > c.max
+      if over then some "more-connections-in-service-than-the-worker-limit"
+      else
+        let pred := boundPrediction c
+        let late := (served.zip pred).any fun (k, p) => k.1 > p + boundTolerance
+        let early := (served.zip pred).any fun (k, p) => k.1 + boundTolerance < p
+        if late then some "accepted-connection-served-later-than-the-worker-limit-explains"
+        else if early then some "model-disagrees:connection-served-earlier-than-predicted"
+        else none
+  | _ => some "unparsable-observation"
+
 def listenLine (line : String) : String :=
   match parse line with
   | none => "(model-parse-error)"
@@ -182,6 +239,9 @@ def listenLine (line : String) : String :=
     -- `Listener::drop` does not unlink a path it did not create (C15_unlink)
     render (.list [.atom "aobs", .atom "t", .atom "t", ofBool (!unlinksOnDrop (.unixPath false))])
   | some sx =>
+    match parseBoundCase sx with
+    | some b => render (boundLine b)
+    | none =>
     match parseConcCase sx with
     | some c => render (concLine c)
     | none =>
@@ -271,6 +331,9 @@ def listenPred (prop : String) (caseLine obsLine : String) : String :=
       match os with
       | .list (.atom "panic" :: _) => some "panic"
       | _ =>
+        match parseBoundCase cs with
+        | some b => if prop == "C14" then boundPred b os else some "bound-case-for-another-property"
+        | none =>
         match parseConcCase cs with
         | some c =>
           match os with
